@@ -1,7 +1,7 @@
 (* Properties_C01.v -- C01: no write outside the declared destination.
    Only theorem statements, closed by [exact]; Print Assumptions under each. *)
 From Coq Require Import List ZArith Lia Bool.
-From SC Require Import Base Cfg Comb CombProofs ModStr ModMem ModExt ProofsStr ProofsMem ProofsExt PropDefs.
+From SC Require Import Base Cfg Comb CombProofs ModStr ModMem ModExt ModExt2 ProofsStr ProofsMem ProofsExt ProofsExt2 PropDefs.
 From SC.Gen Require Import Consts.
 Import ListNotations.
 Local Open Scope Z_scope.
@@ -129,6 +129,14 @@ Print Assumptions C01_strset_s.
 Theorem C01_strnset_s : forall c d dmax value n destbos, 0 <= dmax -> 0 <= n -> C01_holds (ext d dmax) (strnset_s c d dmax value n destbos).
 Proof. intros. apply C01_from_writes. exact (strnset_s_writes c d dmax value n destbos H H0). Qed.
 Print Assumptions C01_strnset_s.
+Theorem C01_wcsset_s : forall c d dmax value destbos, 0 < wchar_w c -> 0 <= dmax ->
+  (destbos = BOS_UNKNOWN \/ dmax * wchar_w c <= destbos) -> C01_holds (ext d (dmax * wchar_w c)) (wcsset_s c d dmax value destbos).
+Proof. intros. apply C01_from_writes. exact (wcsset_s_writes c d dmax value destbos H H0 H1). Qed.
+Print Assumptions C01_wcsset_s.
+Theorem C01_wcsnset_s : forall c d dmax value n destbos, 0 < wchar_w c -> 0 <= dmax -> 0 <= n ->
+  (destbos = BOS_UNKNOWN \/ dmax * wchar_w c <= destbos) -> C01_holds (ext d (dmax * wchar_w c)) (wcsnset_s c d dmax value n destbos).
+Proof. intros. apply C01_from_writes. exact (wcsnset_s_writes c d dmax value n destbos H H0 H1 H2). Qed.
+Print Assumptions C01_wcsnset_s.
 Theorem C01_strnterminate_s : forall c d dmax destbos, 0 <= dmax -> C01_holds (ext d dmax) (strnterminate_s c d dmax destbos).
 Proof. intros. apply C01_from_writes. exact (strnterminate_s_writes c d dmax destbos H). Qed.
 Print Assumptions C01_strnterminate_s.
